@@ -69,7 +69,9 @@ def sources(tier, seed):
     from . import c01, c03, c07
     out = []
     s1 = [st for st in c01.shapes("quick" if quick else "thorough", seed)
-          if not bad_shift(st[-1]) and not (
+          if not bad_shift(st[-1]) and not zero_divisor(st[-1]) and not (
+              st[0] == "aug" and st[2] in ("//", "%", "/") and
+              st[3][0] == "C" and st[3][1] == 0) and not (
               st[0] == "aug" and st[2] in ("<<", ">>") and st[3][0] == "C"
               and not 0 <= st[3][1] < 32)]
     for st in rnd.sample(s1, min(len(s1), 240 if quick else 2500)):
@@ -99,6 +101,17 @@ def sources(tier, seed):
         out.append((f"library: fast sync group with {name}", "device", name))
     out.append(("library: dispatcher EtherXDP", "dispatcher", None))
     return out
+
+
+def zero_divisor(x):
+    """division or remainder by the constant 0 (outside the DSL's domain)"""
+    if not isinstance(x, list):
+        return False
+    if x[0] in ("bin", "rbin") and x[1] in ("//", "%", "/"):
+        d = x[3]
+        if isinstance(d, list) and d[0] == "C" and d[1] == 0:
+            return True
+    return any(zero_divisor(y) for y in x[1:] if isinstance(y, list))
 
 
 def bad_shift(x):
@@ -367,8 +380,12 @@ def check_one(label, kind, arg, q, res):
             replay=dict(kind=kind, arg=arg)))
         return
     if verdict is False:
+        sig = "C05|" + classify("", log)
+        if kind == "c07" and arg.get("guard") == "with" and arg.get("N") == 0 \
+                and "outside of the packet" in log:
+            sig = "C05|packet guard of zero bytes"
         res["violations"].append(dict(
-            signature="C05|" + classify("", log),
+            signature=sig,
             what=f"{label}: the generator assembles the program but the "
                  f"kernel verifier rejects it: {lastline(log)}",
             witness=dict(verifier_log=log[-600:]),
@@ -426,8 +443,9 @@ def main(tier, replay_file=None):
                              "extra.programs_by_source",
                     per_program="all inputs and all paths (solver); the "
                                 "kernel's own verifier when bpf() is usable",
-                    outside="constant shift counts outside 0..31 (outside the "
-                            "DSL's domain, C01's precondition); programs "
+                    outside="constant shift counts outside 0..31 and constant "
+                            "zero divisors (outside the DSL's domain, C01's "
+                            "precondition); programs "
                             "outside these generators; verifier "
                             "limits that depend on program size (1M "
                             "instructions) are far away"),
